@@ -554,17 +554,22 @@ fn c17_day_series(lo: i64, hi: i64, out: &mut Out) {
       prev = Some((n, mp, duty, mansion));
       // hours of the 1st and 15th of each month
       if d == 1 || d == 15 {
-        for h in (0..24usize).step_by(2) {
+        for h in 0..24usize {
           let t = SolarTime::from_ymd_hms(yy as isize, m as usize, d as usize, h, 30, 0);
           let hb = ((h as i64 + 1) / 2) % 12;
+          // from 23:00 the day pillar used for the hour is the next day's
+          let db = if h == 23 { (db + 1) % 12 } else { db };
           let r = guard(|| { let sh = t.get_sixty_cycle_hour(); let lh = t.get_lunar_hour(); (sh.get_twelve_star().get_index() as i64, lh.get_twelve_star().get_index() as i64, sh.get_nine_star().get_index() as i64, lh.get_nine_star().get_index() as i64) });
           if let Some((a, b, c, e)) = r {
             let hstart = sp::emod(db - 2, 6) * 2;
             if a != sp::emod(hb - hstart, 12) || a != b { out.fail(format!("hourtwelve:{}", t), format!("{} / {} want {}", a, b, sp::emod(hb - hstart, 12))); }
             let asc = n >= tdk(24 * yy) && n < tdk(24 * yy + 12);
-            let st = [8i64, 5, 2][(db % 3) as usize];
-            let want = if asc { sp::emod(8 - st + hb, 9) } else { sp::emod(st - hb, 9) };
-            if c != want || e != c { out.fail(format!("hournine:{}", t), format!("{} / {} want {}", c, e, want)); }
+            // hour star: start by the day-branch group, ascending between the winter and the summer solstice day. From
+            // 23:00 the instant-level view uses the next day's pillar, the lunar-hour view the lunar day's own pillar
+            // (the property is silent on 23:00 for this series; each view is checked against its own day pillar)
+            let star = |b: i64| { let st = [8i64, 5, 2][(b % 3) as usize]; if asc { sp::emod(8 - st + hb, 9) } else { sp::emod(st - hb, 9) } };
+            let db0 = branch_of(sp::pillar_of(n));
+            if c != star(db) || e != star(db0) { out.fail(format!("hournine:{}", t), format!("{} / {} want {} / {}", c, e, star(db), star(db0))); }
           } else { out.fail(format!("hourseries:{}", t), "panic".into()); }
         }
       }
